@@ -123,6 +123,9 @@ def run(prog, chk, tier):
                        "its 16x24 transfer matrix must equal the bit-serial CRC-16 step with reflected polynomial 0x8408; closure to 16 bits, "
                        "initialisation from start_value (default 0xFFFF), iteration over the data in order and absence of a final XOR are "
                        "checked on the loop record. By induction this is the whole property for every byte string and every 16-bit start value.")
+    from rules import iteronce as _iteronce
+
+    _iteronce.iterable_rules(prog, chk, "C15", ["bec2format.bec2file"], only=lambda mod, fn: "." not in fn)
     # module-level helpers the function calls (an extracted per-byte step, say) are interpreted as part of it
     ex = Exec(prog, policy=lambda e, f, d: f.module is fi.module and f.cls is None and f is not fi and d < 3)
     res = ex.run(fi)
